@@ -1,6 +1,7 @@
 import LJT.Ops.Util
 import LJT.Model.ICC
 import LJT.Model.Header
+import LJT.Model.CopyOpt
 import LJT.Gen.Err
 namespace LJT.Ops
 open LJT.ICC LJT.Header
@@ -47,6 +48,24 @@ def opC16 : List String → Option String
       | h :: v :: r => (h, v) :: pairs r
       | _ => []
     some s!"subsamp {getSubsamp nc jcs (pairs ns)}"
+  | "xcopy" :: nm :: rest => do
+    let nm ← nat? nm
+    let ns ← nats? rest
+    let rec mk : Nat → List Nat → List (Nat × List Nat)
+      | 0, _ => []
+      | n + 1, code :: len :: seed :: r => (code, genBytes seed len) :: mk n r
+      | _, _ => []
+    let src := mk nm ns
+    let opts := (ns.drop (nm * 3 + 1)).take (ns.getD (nm * 3) 0)
+    let toOpt (o : Nat) : CopyOpt.Opt := match o with
+      | 0 => .none | 1 => .comments | 2 => .all | 3 => .allExceptIcc | _ => .icc
+    let rec run : List Nat → (Nat → Bool) → String → String
+      | [], _, acc => acc
+      | o :: os, saved, acc =>
+        let out := CopyOpt.transform saved (toOpt o) true false src
+        let str := " ".intercalate (out.map (fun m => s!"{m.1}:{m.2.length}:{fnv m.2}"))
+        run os (CopyOpt.setup saved (toOpt o)) (acc ++ (if str.isEmpty then " |" else " " ++ str ++ " |"))
+    some ("ok" ++ run opts (fun _ => false) "")
   | _ => none
 
 end LJT.Ops
